@@ -73,7 +73,14 @@ class Check:
         self.const_errors = genconst.regenerate()
         self.forbidden = coqbuild.scan_forbidden()
         self.proof = coqbuild.check_props(self.pid, [f"extract/Extract_{self.family}.vo"])
-        self.modelrun = coqbuild.build_modelrun(self.family)
+        self.model_error = None
+        try:
+            self.modelrun = coqbuild.build_modelrun(self.family)
+        except RuntimeError as e:
+            # the model no longer builds against the regenerated constants: the tie is broken, but the implementation can
+            # still be searched for a failing input with the oracle alone
+            self.modelrun = None
+            self.model_error = str(e)[-1500:]
         pre = getattr(self.plugin, "prebuild", None)
         if pre:
             try:
@@ -89,6 +96,8 @@ class Check:
         ints = [c["ints"] for c in cases]
         timeout = getattr(self.plugin, "TIMEOUT", 900)
         impl_out, crashes = runner.run_cases(self.impl, ints, timeout=timeout, env=asan_env())
+        if self.modelrun is None:
+            return impl_out, [None] * len(ints), crashes
         model_out, mcrash = runner.run_cases(self.modelrun, ints, timeout=timeout, big_stack=True)
         if mcrash:
             raise RuntimeError(f"model runner crashed on case {sorted(mcrash)[0]}: {list(mcrash.values())[0][-500:]}")
@@ -147,15 +156,27 @@ class Check:
         try:
             self.build_all()
         except implbuild.BuildError as e:
-            print(f"check {pid}: implementation does not build: {e}", file=sys.stderr)
-            return 2
+            # The harness is compiled from REPO's current tree (including code copied verbatim out of it).  If that no
+            # longer builds, the correspondence cannot be established: the property is no longer shown to hold.
+            print(f"check {pid}: harness does not build against the current tree: {e}", file=sys.stderr)
+            p = self.write_replay("tie", {"property": pid, "seed": self.seed,
+                                          "reason": ["correspondence harness no longer builds against the current source tree "
+                                                     f"(harness/impl_{self.family}.cpp and the code it takes from the tree)"],
+                                          "build_error": str(e)[-3000:]})
+            self.proof = getattr(self, "proof", None) or {"ok": False, "theorems": [], "closure": [], "obligations": 0,
+                                                          "discharged": 0, "assumptions": [], "log": ""}
+            self.impl_rebuilt = True
+            self.write_evidence([], 1, {}, False, [])
+            print(f"VIOLATION property={pid} replay={p} no-failing-input-found")
+            print(f"check {pid} [{self.tier}] FAIL: harness build failed")
+            return 1
         findings = load_findings(pid)
         open_sigs = {f["signature"]: f for f in findings if f.get("status") == "open"}
 
         cases = corpus_cases(pid) + list(self.plugin.generate(rng, self.tier))
         results = self.explore(cases)
 
-        proof_ok = self.proof["ok"] and not self.forbidden and not self.const_errors
+        proof_ok = self.proof["ok"] and not self.forbidden and not self.const_errors and not self.model_error
         corr_bad = [r for r in results if not r["judge"]["corr"]]
         failing = [r for r in results if r["judge"]["fail"]]
 
@@ -211,6 +232,8 @@ class Check:
                 why += [f"forbidden token {t} at {f}:{n}" for f, n, t in self.forbidden]
             if not self.proof["ok"]:
                 why.append("proof obligation no longer checks: props/Properties_%s.v (see log)" % pid)
+            if self.model_error:
+                why.append("the model no longer builds against the constants regenerated from the source: " + self.model_error[-600:])
             payload = {"property": pid, "seed": self.seed, "reason": why,
                        "theorems": self.proof["theorems"],
                        "proof_log_tail": self.proof["log"][-3000:] if not self.proof["ok"] else None,
